@@ -190,7 +190,9 @@ def process_histories(path, E, rng, tier, work):
             r = worker_session(path, fn, 'new' if si == 0 else 'load', g, None, hs[si])
             if r.get('error'):
                 core.PENDING_RAISES.append({'error': r['error'], 'via': 'session in its own process', 'plan': plan, 'session': si + 1})
-            took = bool(r['quit'] and r['saves'])
+            # the quit took effect when the state was saved after the request (a request made while the LAST pre-terminal is
+            # being generated stops nothing: the run completes and the save file still holds an earlier state)
+            took = bool(r['quit'] and r['saves'] and r['saves'][-1] >= g)
             sess.append({'lines': r['lines'], 'q': took, 'saved': sp, 'qn': g if took else None})
             total += len(r['lines'])
             if not took:
@@ -412,7 +414,7 @@ def quit_histories(path, E, rng, tier, work):
                 r = session.run_session(pcfg, cfg, fn, load=True, quit_at_guess=g, limit=(10 ** 6 if with_limit else None))
             # a quit "happened" when it stopped the run (the state was saved); a request that arrives after the last
             # guess stops nothing: the run completes, nothing is saved, the history of quit/resume cycles is over
-            took = bool(r['quit'] and r['saves'])
+            took = bool(r['quit'] and r['saves'] and r['saves'][-1] >= g)
             sess.append({'lines': r['lines'], 'q': took, 'saved': sp, 'qn': g if took else None})
             total += len(r['lines'])
             if not took:
